@@ -268,14 +268,14 @@ theorem error_sites_nonvacuous :
         Gen.C10.sites.any fun s => s.2.2.2.any fun o => o.1 == k) = true := by
   decide +kernel
 
-/-- Stated only — owned by the byte-source layer L2 (lean/ShVerif/Model/L2ByteSrc.lean, properties
-    C07/C09, still being proved when this package was written, hence not imported): for the relation
-    `handsOut input off` = "some run of the lexer primitives over `input` (any read schedule, any
-    client respecting the newLit/endLit protocol) makes `p.pos` or `nextPos()` have offset `off`",
-    every such offset is at most the number of input bytes.  Together with `error_sites` (every
-    error position is such a position, a node position built from them, or invalid) this is the
-    position clause of C10; in this package the clause is executed on the implementation by the
-    search leg (`errpos` witnesses). -/
+/-- The obligation of the byte-source layer L2, stated here without importing anything, for an
+    abstract relation `handsOut input off` = "some run of the lexer primitives over `input` (any
+    read schedule, any client respecting the protocol) yields a position with offset `off`": every
+    such offset is at most the number of input bytes.  Together with `error_sites` (every error
+    position is such a position, a node position built from them, or invalid) this is the position
+    clause of C10.  Props/C10L2.lean instantiates it with C07's model and proves it:
+    `error_pos_in_input` (positions taken by the client: `l2HandsOut`) and `error_pos_in_input_all`
+    (those plus the offset of the "invalid UTF-8 encoding" error raised inside `rune`). -/
 def error_pos_in_input_statement (handsOut : List UInt8 → Nat → Prop) : Prop :=
   ∀ (input : List UInt8) (off : Nat), handsOut input off → off ≤ input.length
 
